@@ -358,3 +358,109 @@ theorem codeSort_ok_aux {cfg : Cfg} (L : LegalCfg cfg) (lt : α → α → Bool)
     · rw [if_neg hr]; simp only; rw [ho]; exact ⟨_, _, _, rfl⟩
 
 end KV.Sort
+
+namespace KV.Sort
+open List
+
+variable {α : Type}
+
+/-- the loop only exits when the lazy merge is possible -/
+theorem codeMergeLoop_post (lt : α → α → Bool) (comb) (pick) (cfg : Cfg) (lazyMem : Nat) :
+    ∀ (fuel : Nat) (runs : List (List α)) (n : Nat) (runs' : List (List α)) (n' : Nat),
+      codeMergeLoop lt comb pick cfg lazyMem fuel runs n = .ok (runs', n') →
+      (runs'.length ≤ max 1 (lazyMem / cfg.bufferSize) ∨ dataSize cfg runs' ≤ lazyMem) := by
+  intro fuel
+  induction fuel with
+  | zero =>
+    intro runs n runs' n' h
+    unfold codeMergeLoop at h
+    simp only at h
+    split at h
+    · rename_i hc
+      simp only [Except.ok.injEq, Prod.mk.injEq] at h
+      rw [← h.1]; exact hc
+    · cases h
+  | succ fuel ih =>
+    intro runs n runs' n' h
+    unfold codeMergeLoop at h
+    simp only at h
+    split at h
+    · rename_i hc
+      simp only [Except.ok.injEq, Prod.mk.injEq] at h
+      rw [← h.1]; exact hc
+    · split at h
+      · cases h
+      · exact ih _ _ _ _ h
+
+/-- the value `Sort::Merge` returns when the lazy-merge condition holds for `runs` -/
+def mergeRet (cfg : Cfg) (runs : List (List α)) : Nat :=
+  if runs.length ≤ 1 then 0 else min (dataSize cfg runs) (runs.length * cfg.bufferSize)
+
+theorem codeMerge_shape (lt : α → α → Bool) (comb) (pick) (cfg : Cfg) (lazyMem : Nat) (runs : List (List α))
+    (m : MergeResult α) (h : codeMerge lt comb pick cfg lazyMem runs = .ok m) :
+    m.ret = mergeRet cfg m.runs ∧
+      (m.runs.length ≤ max 1 (lazyMem / cfg.bufferSize) ∨ dataSize cfg m.runs ≤ lazyMem) := by
+  unfold codeMerge at h
+  split at h
+  · rename_i h1
+    simp only [Except.ok.injEq] at h; subst h
+    exact ⟨by simp [mergeRet, h1], Or.inl (Nat.le_trans h1 (Nat.le_max_left _ _))⟩
+  · split at h
+    · cases h
+    · rename_i runs' n hl
+      have hpost := codeMergeLoop_post lt comb pick cfg lazyMem _ _ _ _ _ hl
+      split at h
+      · rename_i hr
+        simp only [Except.ok.injEq] at h; subst h
+        exact ⟨by simp [mergeRet, hr], hpost⟩
+      · rename_i hr
+        simp only [Except.ok.injEq] at h; subst h
+        exact ⟨by simp [mergeRet, hr], hpost⟩
+
+/-- with `lazy_memory = mergeRet` the lazy-merge condition holds -/
+theorem mergeRet_cond {cfg : Cfg} (L : LegalCfg cfg) (runs : List (List α)) :
+    runs.length ≤ max 1 (mergeRet cfg runs / cfg.bufferSize) ∨ dataSize cfg runs ≤ mergeRet cfg runs := by
+  unfold mergeRet
+  by_cases h1 : runs.length ≤ 1
+  · left; exact Nat.le_trans h1 (Nat.le_max_left _ _)
+  · rw [if_neg h1]
+    by_cases hs : dataSize cfg runs ≤ runs.length * cfg.bufferSize
+    · right; rw [Nat.min_eq_left hs]; exact Nat.le_refl _
+    · left
+      rw [Nat.min_eq_right (by omega), Nat.mul_div_cancel _ L.bufPos]
+      exact Nat.le_max_right _ _
+
+/-- `Merge(mergeRet)` on runs that already satisfy the condition is a no-op returning the same value -/
+theorem codeMerge_idem {cfg : Cfg} (L : LegalCfg cfg) (lt : α → α → Bool) (comb) (pick) (runs : List (List α)) :
+    codeMerge lt comb pick cfg (mergeRet cfg runs) runs = .ok ⟨runs, 0, mergeRet cfg runs⟩ := by
+  unfold codeMerge
+  by_cases h1 : runs.length ≤ 1
+  · rw [if_pos h1]; simp [mergeRet, h1]
+  · rw [if_neg h1]
+    have hc := mergeRet_cond L runs
+    have hloop : codeMergeLoop lt comb pick cfg (mergeRet cfg runs) runs.length runs 0 = .ok (runs, 0) := by
+      unfold codeMergeLoop
+      simp only
+      rw [if_pos hc]
+    rw [hloop]
+    simp only
+    rw [if_neg h1]
+    simp [mergeRet, h1]
+
+theorem mergeRet_le {cfg : Cfg} (L : LegalCfg cfg) (lazyMem : Nat) (runs : List (List α))
+    (h : runs.length ≤ max 1 (lazyMem / cfg.bufferSize) ∨ dataSize cfg runs ≤ lazyMem) :
+    mergeRet cfg runs ≤ lazyMem := by
+  unfold mergeRet
+  by_cases h1 : runs.length ≤ 1
+  · rw [if_pos h1]; omega
+  · rw [if_neg h1]
+    rcases h with h | h
+    · have : runs.length ≤ lazyMem / cfg.bufferSize := by
+        rcases Nat.le_total 1 (lazyMem / cfg.bufferSize) with h2 | h2
+        · rwa [Nat.max_eq_right h2] at h
+        · rw [Nat.max_eq_left h2] at h; omega
+      have := (Nat.le_div_iff_mul_le L.bufPos).mp this
+      exact Nat.le_trans (Nat.min_le_right _ _) this
+    · exact Nat.le_trans (Nat.min_le_left _ _) h
+
+end KV.Sort
